@@ -41,6 +41,22 @@ FIXED = [
  ("fix: concurrent Sets of keys that share a directory", ["C14"], "two goroutines storing different long keys with a common directory prefix: one Set failed with 'mkdirat ...: file exists'"),
  ("fix: a key's file can no longer collide with the directory of a longer key", ["C14"], "a 36-byte key and a longer key with that prefix could not coexist (ENOTDIR/EISDIR); the empty key could not be stored"),
  ("fix: list keys through the root handle", ["C14"], "Keys failed with ENAMETOOLONG for every prefix once a stored key's nested fragment directories exceeded PATH_MAX (a key of about 3 kB; Set/Get/Delete of that key worked) - thorough sequences case 27526 at seed 1, now also scripted cases 0-11"),
+ ("fix: use the first occurrence of a repeated Cache-Control directive", ["C01", "C02"], "the last occurrence of a repeated directive won: 'max-age=0, max-age=3600' was served as fresh for an hour (C01 grid), 'no-cache, no-cache=\"X-Extra\"' was served without validation and request 'max-age=0, max-age=100' was answered from the store (C02 product)"),
+ ("fix: a max-age that cannot be read makes the response stale", ["C01"], "max-age=abc / max-age=-5 were treated as absent: lifetime from Expires (to be ignored when max-age is present) or from the Last-Modified heuristic (C01 grid points max-age-invalid)"),
+ ("fix: heuristic freshness is at most 10 %", ["C01"], "10 % of Date - Last-Modified was rounded to the nearest second: 105 s gave 11 s, 5 s gave 1 s (C01 grid, Last-Modified -105 / -5 with sub-second offsets)"),
+ ("fix: responses served under stale-while-revalidate keep their Age and status fields", ["C11"], "no-cache=\"Age, X-Httpcache-Status, X-From-Cache\" removed the cache's own fields from STALE responses on the stale-while-revalidate path (C11 product / fuzz)"),
+ ("fix: only-if-cached never reaches the origin, whatever the method", ["C18"], "HEAD, POST and GET+Range with only-if-cached were forwarded to the origin (C18 fuzz / store-faults with the monitor extended to all methods)"),
+ ("fix: a request with an empty method is a GET", ["C09"], "Method \"\" (a GET for net/http) bypassed the cache and then invalidated the stored response (C09 scenario, empty-method follow-ups)"),
+ ("fix: do not panic on an upstream response without a header map", ["C10"], "an upstream response with a nil Header map panicked on miss, bypass and validation, and took the process down in a background revalidation (C10 odd-upstream)"),
+ ("fix: close upstream responses that are not passed on to the caller", ["C10"], "the 5xx reply dropped under stale-if-error, the 304 that freshened an entry and everything a background revalidation received were never closed: the connection stays checked out and a connection-limited client hangs on its next request (C10 monitor upstream-body-not-released)"),
+ ("fix: with update_mtime, a Get that raced a Delete", ["C15"], "with update_mtime a Get concurrent with a Delete returned the raw chtimes ENOENT error: neither the value nor ErrNotExist (C15 concurrent, backend fsmt)"),
+ ("fix: remove dot-segments spelled with %2E, and key opaque http(s) URLs by host and query too", ["C07", "C09", "C03"], "'/x/%2e%2e/r1' kept its dot-segments in the key: an unsafe request to that spelling did not invalidate (C07) and a GET of it missed (C09); URLs with Opaque set were keyed without URL.Host and RawQuery, so two hosts / two queries shared one stored response (C03 struct family)"),
+ ("fix: normalise URLs whose host is an IPv6 literal with a zone", ["C07", "C09"], "hosts like [fe80::1%25eth0] made the key fall back to URL.String(): no normalisation at all, fragment in the key (C07 / C09 zone targets)"),
+ ("fix: the variant index does not collect duplicate references", ["C19"], "an origin alternating between 'Vary: X-A' and 'Vary: *' (max-age=0) made the index grow by one record every two requests (C19 policy vary-alternate-xa-star)"),
+ ("fix: a 304 that answers the client's own precondition", ["C02"], "a stored response without the validator the origin evaluates (none, or only Last-Modified while the client sent If-None-Match) was returned as REVALIDATED - and rewritten with the other representation's ETag - after a 304 that answered the client's own If-None-Match / If-Modified-Since (C02 client-conditionals)"),
+ ("fix: normalise TE when a response varies on it", ["C09"], "the coding-list normalisation was registered for \"TE\" but looked up as \"Te\": equivalent TE spellings selected different variants (C09 header pairs te-order, te-q1)"),
+ ("fix: bind encrypted entries to the key they are stored under", ["C17"], "the file of one key put in place of another key's file passed authentication and Get returned the other key's value (C17 tamper kind replace-with-other-entry)"),
+ ("fix: apply index updates, freshening and invalidation to what is stored now", ["C16", "C07", "C08", "C09"], "lookups made before the origin was contacted were written back afterwards: overlapping requests for two variants lost one index entry; a 304 landing after a POST (or a reload) wrote the invalidated / replaced entry back; a background 304 for one representation was merged onto another stored under the same id (C16 Mode S)"),
 ]
 log = subprocess.run(["git", "-C", "/repo", "log", "--format=%h %s"], capture_output=True, text=True).stdout.splitlines()
 kf_path = os.path.join(ROOT, "known_findings.json")
